@@ -417,6 +417,10 @@ def exprstr(n):
         return 'construct(%s)' % ', '.join(exprstr(a) for a in n.get('inner', []))
     if k == 'CXXNullPtrLiteralExpr':
         return 'nullptr'
+    if k == 'FloatingLiteral':
+        return str(n.get('value'))
+    if k == 'InitListExpr':
+        return '{%s}' % ', '.join(exprstr(a) for a in n.get('inner', []))
     return '<%s>' % k
 
 
